@@ -398,6 +398,113 @@ def extract(bdir):
     out.append("/-- remove/find_call_out[_by_handle]: `return (int) time_left (...)` -/\ndef efunResult (x : Int) : Int :=\n  %s\n"
                % list(casts.values())[0])
 
+    # ---- list surgery: the delta arithmetic of unlinking and of the ordered insert ---------------------------------
+    def chain(n):
+        """access path of an lvalue: cop->next->delta = ('cop','next','delta'); (*copp)->delta = ('*copp','delta')"""
+        n = strip(n)
+        k = n.get("kind")
+        if k == "MemberExpr":
+            return chain(n["inner"][0]) + (n.get("name"),)
+        if k == "DeclRefExpr":
+            return (n["referencedDecl"]["name"],)
+        if k == "UnaryOperator" and n.get("opcode") == "*":
+            c = chain(n["inner"][0])
+            return ("*" + c[0],) + c[1:]
+        if k == "ImplicitCastExpr":
+            return chain(n["inner"][0])
+        return ("?",)
+
+    def compound(fnode):
+        return [n for n in walk(fnode) if n.get("kind") == "CompoundAssignOperator"]
+
+    unl = {}
+    for f in ("remove_call_out", "remove_call_out_by_handle", "remove_all_call_out"):
+        fn = ast_function(bdir, SRC, f)
+        cs = [n for n in compound(body_of(fn)) if chain(n["inner"][0])[-1] == "delta"]
+        need(f + ".unlink", len(cs) == 1, "exactly one update of a `delta` field expected (`cop->next->delta += cop->delta`), found %d" % len(cs))
+        c = cs[0]
+        need(f + ".unlink", chain(c["inner"][0]) == ("cop", "next", "delta") and chain(c["inner"][1]) == ("cop", "delta")
+             and c.get("opcode") in ("+=", "-="), "not of the form `cop->next->delta += cop->delta`: %s" % src_of(c, text))
+        # the update must be guarded by `if (cop->next)` and precede the unlink `*copp = cop->next`
+        unl[f] = (c.get("opcode")[0], c)
+    need("unlink", len(set(v[0] for v in unl.values())) == 1, "the three copies of the successor update differ")
+    uop, un = list(unl.values())[0]
+    out.append("/-- remove_call_out[_by_handle], remove_all_call_out: `%s` (the removed entry's delta is folded into its "
+               "successor) -/\ndef unlinkDelta (nextDelta delta : Int) : Int :=\n  (nextDelta %s delta)\n" % (src_of(un, text), uop))
+
+    fn = ast_function(bdir, SRC, "new_call_out")
+    fors = [n for n in walk(body_of(fn)) if n.get("kind") == "ForStmt"
+            and any(x.get("kind") == "MemberExpr" and x.get("name") == "delta" for x in walk(n))]
+    need("new_call_out.insert", len(fors) == 1, "the insertion loop not found")
+    fbody = kids(fors[0])[-1]
+    need("new_call_out.insert", fbody.get("kind") == "CompoundStmt" and len(kids(fbody)) == 2
+         and kids(fbody)[0].get("kind") == "IfStmt", "loop body is not `if (...) {...} delay -= (*copp)->delta;`")
+    ifn, walkn = kids(fbody)
+    splits = [n for n in compound(kids(ifn)[1]) if chain(n["inner"][0]) == ("*copp", "delta")]
+    need("new_call_out.split", len(splits) == 1 and splits[0].get("opcode") in ("-=", "+=")
+         and chain(splits[0]["inner"][1]) == ("delay",), "`(*copp)->delta -= delay` not found in the insert branch")
+    out.append("/-- new_call_out: `%s` (the entry behind the new one keeps the difference) -/\n"
+               "def insertSplit (delta delay : Int) : Int :=\n  (delta %s delay)\n" % (src_of(splits[0], text), splits[0]["opcode"][0]))
+    need("new_call_out.walk", walkn.get("kind") == "CompoundAssignOperator" and walkn.get("opcode") in ("-=", "+=")
+         and chain(walkn["inner"][0]) == ("delay",) and chain(walkn["inner"][1]) == ("*copp", "delta"),
+         "`delay -= (*copp)->delta` not found after the insert test")
+    out.append("/-- new_call_out: `%s` (walking past an entry) -/\ndef insertWalk (delay delta : Int) : Int :=\n  (delay %s delta)\n"
+               % (src_of(walkn, text), walkn["opcode"][0]))
+
+    # the head decrement of call_out(): the value stored by `--call_list[tm]->delta`
+    fn = ast_function(bdir, SRC, "call_out")
+    decs = [n for n in walk(body_of(fn)) if n.get("kind") == "UnaryOperator" and n.get("opcode") in ("--", "++")
+            and chain(n["inner"][0])[-1] == "delta"]
+    need("call_out.dec", len(decs) == 1 and not decs[0].get("isPostfix"), "exactly one `--call_list[tm]->delta` expected")
+    out.append("/-- call_out: the value `%s` stores in the head -/\ndef headDec (delta : Int) : Int :=\n  (delta %s 1)\n"
+               % (src_of(decs[0], text), "-" if decs[0]["opcode"] == "--" else "+"))
+
+    # ---- boolean tests on the owner: dropped in call_out(), skipped / counted in get_all_call_outs ------------------
+    def macro_tok(n):
+        b = n.get("range", {}).get("begin", {})
+        loc = b.get("expansionLoc")
+        if not loc or "offset" not in loc:
+            return None
+        return text[loc["offset"]:loc["offset"] + loc.get("tokLen", 0)]
+
+    def bexp(site, n):
+        """condition over the atoms `X->ob` (obNonNull) and `X->ob->flags & O_DESTRUCTED` (obDead) -> Lean Bool"""
+        n = strip(n)
+        k = n.get("kind")
+        if k == "ImplicitCastExpr":
+            return bexp(site, n["inner"][0])
+        if k == "BinaryOperator" and n.get("opcode") in ("&&", "||"):
+            return "(%s %s %s)" % (bexp(site, n["inner"][0]), n["opcode"], bexp(site, n["inner"][1]))
+        if k == "UnaryOperator" and n.get("opcode") == "!":
+            return "(!%s)" % bexp(site, n["inner"][0])
+        if k == "BinaryOperator" and n.get("opcode") == "&":
+            c = chain(n["inner"][0])
+            if len(c) >= 3 and c[-2:] == ("ob", "flags") and macro_tok(strip(n["inner"][1])) == "O_DESTRUCTED":
+                return "obDead"
+        if k == "MemberExpr" and chain(n)[-1] == "ob" and len(chain(n)) == 2:
+            return "obNonNull"
+        raise TieBroken("c10:" + site, "%s: condition leaves the grammar: %s" % (site, src_of(n, text)))
+
+    fn = ast_function(bdir, SRC, "call_out")
+    drops = [n for n in walk(body_of(fn)) if n.get("kind") == "IfStmt" and len(kids(n)) == 3
+             and any(x.get("kind") == "CallExpr" and any(ref_name(y) == "free_call" for y in walk(x["inner"][0]))
+                     for x in walk(kids(n)[1]))]
+    need("call_out.drop", len(drops) == 1, "the `if (cop->ob && (cop->ob->flags & O_DESTRUCTED))` drop test not found")
+    out.append("/-- call_out: the entry is dropped without a call when `%s` -/\ndef dropCond (obNonNull obDead : Bool) : Bool :=\n  %s\n"
+               % (src_of(kids(drops[0])[0], text), bexp("call_out.drop", kids(drops[0])[0])))
+    fn = ast_function(bdir, SRC, "get_all_call_outs")
+    skips = [n for n in walk(body_of(fn)) if n.get("kind") == "IfStmt" and len(kids(n)) == 2
+             and kids(n)[1].get("kind") == "ContinueStmt"]
+    need("get_all_call_outs.skip", len(skips) == 1, "the `if (...) continue;` of the row loop not found")
+    out.append("/-- get_all_call_outs: no row when `%s` -/\ndef infoSkip (obNonNull obDead : Bool) : Bool :=\n  %s\n"
+               % (src_of(kids(skips[0])[0], text), bexp("get_all_call_outs.skip", kids(skips[0])[0])))
+    counts = [n for n in walk(body_of(fn)) if n.get("kind") == "IfStmt" and len(kids(n)) == 2
+              and kids(n)[1].get("kind") == "UnaryOperator" and kids(n)[1].get("opcode") == "++" and ref_name(kids(n)[1]["inner"][0]) == "i"]
+    need("get_all_call_outs.count", len(counts) == 1, "the `if (...) i++;` of the counting loop not found")
+    out.append("/-- get_all_call_outs: the counting loop counts an entry when `%s` (must be the complement of the skip test) -/\n"
+               "def infoCount (obNonNull obDead : Bool) : Bool :=\n  %s\n"
+               % (src_of(kids(counts[0])[0], text), bexp("get_all_call_outs.count", kids(counts[0])[0])))
+
     # ---- allocation chunk -----------------------------------------------------------------------------------
     m = re.search(r"^#define\s+CHUNK_SIZE\s+(\d+)\s*$", text, re.M)
     need("CHUNK_SIZE", m is not None, "#define CHUNK_SIZE not found")
